@@ -277,6 +277,31 @@ def run(chk):
             r3.expect(s.get("closed", False), "_get_nodes_list: %s exit closes the discovery client" % kind, "AWSElastiCacheHashClient._get_nodes_list:discovery-client-not-closed:%s" % kind, "_get_nodes_list can %s without closing the discovery client" % ("return" if kind == "ret" else "raise"), fn=gnl, witness=fmt_trace(t))
     r3.floor("exits of _get_nodes_list after the client was created", n_ex, 2)
 
+    # a client dropped from .clients anywhere in the package must be closed there: nothing else refers to it afterwards,
+    # so neither reconfigure_nodes nor close() can close its connection later
+    n_rm = 0
+    for f in prog.all_functions():
+        for n in walk_no_nested(f.node):
+            removed = None
+            if isinstance(n, ast.Call) and isinstance(n.func, ast.Attribute) and n.func.attr in ("pop", "popitem", "clear") and isinstance(n.func.value, ast.Attribute) and n.func.value.attr == "clients":
+                removed = n
+            if isinstance(n, ast.Delete) and any(isinstance(t, ast.Subscript) and isinstance(t.value, ast.Attribute) and t.value.attr == "clients" for t in n.targets):
+                removed = n
+            if removed is None:
+                continue
+            n_rm += 1
+            if f.qualname == rn.qualname and isinstance(n, ast.Call) and n.func.attr == "clear":
+                continue  # the snapshot/close of reconfigure_nodes is checked above
+            closes = False
+            par = getattr(n, "_parent", None)
+            if isinstance(par, ast.Assign) and isinstance(par.targets[0], ast.Name):
+                var = par.targets[0].id
+                closes = any(isinstance(c, ast.Call) and isinstance(c.func, ast.Attribute) and c.func.attr == "close" and isinstance(c.func.value, ast.Name) and c.func.value.id == var for c in walk_no_nested(f.node))
+            if isinstance(par, ast.Attribute) and par.attr == "close":
+                closes = True
+            r3.expect(closes, "%s closes the client it drops from .clients" % f.qualname, "%s:drops-client-without-close" % f.qualname, "%s removes a client from .clients (`%s`) without closing it: nothing refers to that client afterwards, so its connection is never closed (neither by reconfigure_nodes nor by close())" % (f.qualname, node_src(n, 60)), fn=f, node=n)
+    r3.floor("removal sites of .clients", n_rm, 1)
+
     # ------------------------------------------------------------------ R4 address selection
     r4 = chk.rule("C19.R4", "host is element int(use_vpc) (1 = IP address, 0 = host name) and port is element 2 of each `|`-separated triple of the space-separated config line")
     init = prog.method(aws, "__init__")
